@@ -164,6 +164,8 @@ func runC15(c *core.Ctx) error {
 	roots := []string{`@t`, `@a | @b`, `12 // {min: 1}`, `12 // {min: 1} - note`, `"Tom" /* {minLength: 1} */`, `"Tom"`, `12`, `-0.50`, `true`, `null`,
 		"[\n  1,\n  2\n]", "[ // {minItems: 1}\n  @t\n]", `{}`, `[]`, "{\n  \"a\": @t // {optional: true}\n}", "{\n  @k: 1\n}", `[1, 2]`, `{"a": 1}`,
 		"12 # user comment", "12 // note only",
+		// notes that end in a character whose last byte is 0x85 or 0xA0 (white space in some code pages), or in other bytes >= 0x80
+		"42 // \u0432\u0441\u0435\u0445", "\"Roma\" // la citt\u00e0", "{} // {additionalProperties: true} - dane s\u0105", "null // \U0001F605", "[1] // {minItems: 1} - \u00e9\u00a0", "12 // caf\u00e9",
 		// one element, two annotations: the note on the line after the rules, or in an annotation of its own before them
 		"42 // {min: 1}\n// the answer", "\"Tom\" // {minLength: 1}\r\n// a note", "[] // {maxItems: 0}\n  // n", "@t // {optional: false}\n// note",
 		"42 /* {min: 1} - the note */ // {max: 50}", "42 /* the note */ // {min: 1, max: 50}", "{ // {additionalProperties: true}\n// n\n}", "{ // note\n}", "@t // {optional: false}", "  12  ", "\n\n12\n\n"}
